@@ -301,3 +301,102 @@ def single_assembly(draw, rings=(2, 5), ducts=(1, 2), coolant="const", regimes=(
     spec["power"] = {"total_power": r6(P), "files": [{"1": ap}]}
     spec["_meta"] = {"A": meta, "Re": Re}
     return spec
+
+
+# ----------------------------------------------------------------------------------------------
+# multi-assembly cores
+def pos_to_ring(idx):
+    """0-based position index -> (ring (1-based), position in ring (1-based))."""
+    if idx == 0:
+        return 1, 1
+    r = 2
+    while 3 * r * (r - 1) < idx:
+        r += 1
+    return r, idx - 3 * (r - 1) * (r - 2)
+
+
+def n_positions(n_ring):
+    return 3 * n_ring * (n_ring - 1) + 1
+
+
+@st.composite
+def core_spec(draw, core_rings=(1, 2), n_types=(1, 3), rings=(2, 4), ducts=(1, 2), coolant="const",
+              gap_models=("flow",), regimes=("lam", "tra", "tur"), n_steps=(30, 120), allow_empty=True,
+              lowfi=True, regions=False, zero_power=False, dT=(5.0, 200.0), duct_const=True,
+              full=False, conv_approx=False, max_cells=2, comps=None, byp_frac=(0.005, 0.2)):
+    """A core of 1, 7 or 19 positions with 1-3 assembly types, empty positions and periphery."""
+    F = round(draw(fl(0.03, 0.16)), 6)
+    cr = draw(st.integers(*core_rings))
+    npos = n_positions(cr)
+    spec = {"setup": draw(setup_section(conv_approx=conv_approx)), "materials": {}}
+    if coolant == "const":
+        spec["materials"]["cool_c"] = draw(const_material())
+        cname = "cool_c"
+        mu = spec["materials"]["cool_c"]["viscosity"][0]
+        cp = spec["materials"]["cool_c"]["heat_capacity"][0]
+    else:
+        cname = draw(st.sampled_from(coolant)) if isinstance(coolant, (list, tuple)) else coolant
+        mu, cp = 2.6e-4, 1270.0
+        if cname in ("lead", "lbe"):
+            mu, cp = 1.8e-3, 146.0
+    if duct_const:
+        spec["materials"]["duct_c"] = draw(const_duct())
+    nt = draw(st.integers(*n_types))
+    types, metas = {}, {}
+    for t in range(nt):
+        a, meta = draw(bundle_type(F, rings, ducts))
+        a["duct_material"] = "duct_c" if duct_const else draw(st.sampled_from(DUCT_MATS))
+        if lowfi and draw(st.integers(0, 3)) == 0:
+            a["use_low_fidelity_model"] = True
+            a["low_fidelity_model"] = draw(st.sampled_from(["simple", "6node"]))
+            a["convection_factor"] = draw(st.sampled_from(["calculate"]) | fl(0.1, 1.0).map(r6))
+            meta["lowfi"] = True
+        if regions and draw(st.booleans()):
+            regs = draw(axial_regions())
+            if regs:
+                a["AxialRegion"] = regs
+        types["T%d" % t] = a
+        metas["T%d" % t] = meta
+    # positions: the outermost ring must hold at least one assembly (it defines the core size)
+    if full or not allow_empty or npos == 1:
+        filled = list(range(npos))
+    else:
+        keep = draw(st.lists(st.booleans(), min_size=npos, max_size=npos))
+        filled = [i for i in range(npos) if keep[i]]
+        outer0 = n_positions(cr - 1) if cr > 1 else 0
+        if not any(i >= outer0 for i in filled):
+            filled.append(outer0 + draw(st.integers(0, npos - outer0 - 1)))
+        filled = sorted(set(filled))
+    gm = draw(st.sampled_from(list(gap_models)))
+    spec["core"] = {"coolant_inlet_temp": r6(draw(fl(500.0, 700.0))), "coolant_material": cname,
+                    "length": None, "n_steps": draw(st.integers(*n_steps)),
+                    "assembly_pitch": round(F + draw(fl(0.001, 0.008)), 6), "gap_model": gm}
+    if gm != "none":
+        spec["core"]["bypass_fraction"] = r6(draw(logfl(*byp_frac)))
+    spec["assemblies"] = types
+    assignment, pfile, posmeta = [], {}, []
+    zb_common = draw(axial_cells(max_cells))
+    Ptot = 0.0
+    for idx in filled:
+        tname = "T%d" % draw(st.integers(0, nt - 1))
+        meta = metas[tname]
+        a = types[tname]
+        Re = draw(reynolds(regimes))
+        fr = geom.flow_for_reynolds(Re, mu, meta["n_ring"], meta["P"], meta["D"], meta["Dw"], meta["H"],
+                                    meta["inner_ftf"])
+        byp = a.get("bypass_gap_flow_fraction", 0.05) if meta["n_duct"] > 1 else 0.0
+        fr = r6(fr / (1.0 - byp))
+        ring, pos = pos_to_ring(idx)
+        assignment.append([tname, ring, pos, pos, {"FLOWRATE": fr}])
+        if zero_power:
+            P = 0.0
+        else:
+            P = fr * cp * draw(fl(*dT))
+        Ptot += P
+        zb = zb_common if draw(st.booleans()) else draw(axial_cells(max_cells))
+        pfile[str(idx + 1)] = draw(asm_power(meta, zb, max(P, 1e-3), comps=comps))
+        posmeta.append({"idx": idx, "type": tname, "Re": Re, "P": P, "flow": fr})
+    spec["assignment"] = assignment
+    spec["power"] = {"total_power": r6(Ptot) if not zero_power else 0.0, "files": [pfile]}
+    spec["_meta"] = {"types": metas, "pos": posmeta, "core_rings": cr}
+    return spec
